@@ -99,6 +99,13 @@ def run(ctx):
         # build-specific divergences from the build's own instantiation / monitor failures
         base_div = {(d["op"], d["comp"]) for d in reps["u"]["div"]}
         base_mon = {(m["op"], m["prop"]) for m in reps["u"]["mon"]}
+        if reps["u"]["div"] or reps["u"]["mon"]:
+            # the default build itself deviates on this stream: whatever the cause is, it is not specific to a build
+            # configuration (the property it breaks is reported by that property's check); a general defect shows at
+            # different ops in different builds, which must not be mistaken for a build-specific one
+            ctx.notes.append("stream %s: the default build deviates from the model / fails %s; build-specific comparison skipped" %
+                             (sname, sorted(set(m["prop"] for m in reps["u"]["mon"]))[:4]))
+            continue
         for cfg in ("n", "uh", "nh"):
             bad = [d for d in reps[cfg]["div"] if (d["op"], d["comp"]) not in base_div]
             badm = [m for m in reps[cfg]["mon"] if (m["op"], m["prop"]) not in base_mon]
